@@ -27,7 +27,14 @@ def rewrite(source, transformer):
 
 
 def run_controls(pid, mod, ctx, tier):
-    controls = getattr(mod, 'CONTROLS', [])
+    from .controls_table import CONTROLS as TABLE
+    from . import mutate as M
+    controls = list(getattr(mod, 'CONTROLS', [])) + list(TABLE.get(pid, []))
+    if tier == 'thorough':
+        for vname, vfn in (('reformat (ast.unparse round trip)', M.reformat), ('rename all locals', M.rename_locals),
+                           ('a>=b -> not a<b', M.flip_comparisons), ('swap if/else arms', M.swap_if_else),
+                           ('x+=y -> x=x+y', M.aug_to_assign)):
+            controls.append({'name': 'variant: ' + vname, 'kind': 'variant', 'mutate': vfn, 'tier': 'thorough'})
     base_viol = {(o.rule, o.key) for o in ctx.report.violated()}
     for c in controls:
         if c.get('tier', 'quick') == 'thorough' and tier != 'thorough':
